@@ -7,8 +7,8 @@ import (
 	"bytes"
 	"crypto/sha256"
 	"errors"
-	"hash"
 	"fmt"
+	"hash"
 	"os"
 	"strings"
 	"time"
@@ -274,15 +274,19 @@ type Runner struct {
 	opts  gen.OpenOpts
 	step  int
 	// hooks for drivers
-	AfterCommit func(r *Runner)                   // called after a successful commit, DB open, no tx
-	AfterOpen   func(r *Runner)                   // after open/reopen
-	BeforeClose func(r *Runner)                   // before close
+	AfterCommit func(r *Runner)                     // called after a successful commit, DB open, no tx
+	AfterOpen   func(r *Runner)                     // after open/reopen
+	BeforeClose func(r *Runner)                     // before close
 	OnStep      func(r *Runner, i int, s *gen.Step) // before each step
+	OnFailed    func(r *Runner, present bool)       // after a commit that returned an error
+	Tracer      Injector                            // fault injector (nil: no faults)
+	FaultLog    []FaultOutcome
 	prevInline  map[string]bool
 	prevDepth   int
 	transcript  hash.Hash
 	lastAPIDump []string
 	aux         bool // current step is auxiliary (not part of the transcript)
+	statsFresh  bool // a write transaction has closed since the last open (DB.Stats is refreshed only then)
 }
 
 // note feeds one observed API result into the transcript hash.
@@ -331,6 +335,22 @@ func (r *Runner) resolve(p []int) *bolt.Bucket {
 		b.FillPercent = r.fill
 	}
 	return b
+}
+
+// Injector is the part of the I/O tracer the runner needs for failed commits.
+type Injector interface {
+	ArmFault(k int, partial int)
+	DisarmFault() (counted int, firedOp string, firedOff int64, metaWritten bool)
+}
+
+// FaultOutcome records one injected commit failure.
+type FaultOutcome struct {
+	K           int    `json:"k"`
+	Events      int    `json:"events"`
+	FiredOp     string `json:"fired_op"`
+	MetaWritten bool   `json:"meta_written"`
+	Err         string `json:"err"`
+	Present     bool   `json:"present"`
 }
 
 // Cleanup releases everything the runner still holds. It must be called in
@@ -553,8 +573,31 @@ func (r *Runner) Run(p *gen.Program) (viol []Violation) {
 	return
 }
 
+// Exec executes one step (for drivers that interleave steps with their own
+// events); it reports whether a violation has been recorded. Panics of the
+// code under test are converted into violations.
+func (r *Runner) Exec(st *gen.Step) (bad bool) {
+	defer func() {
+		if x := recover(); x != nil {
+			r.fail("panic", "panic: %v", x)
+			bad = true
+		}
+	}()
+	r.step++
+	r.Stats.Steps++
+	r.doStep(st)
+	return len(r.Viol) > 0
+}
+
+// Fail lets a driver record a violation through the runner.
+func (r *Runner) Fail(kind, format string, a ...any) { r.fail(kind, format, a...) }
+
 func (r *Runner) doStep(st *gen.Step) {
 	r.aux = st.How == "aux"
+	if st.Op == "commit" && strings.HasPrefix(st.How, "fail:") && r.Tx != nil {
+		r.commitWithFault(st)
+		return
+	}
 	exp := r.Sim.Apply(st)
 	switch st.Op {
 	case "open", "reopen":
@@ -564,6 +607,7 @@ func (r *Runner) doStep(st *gen.Step) {
 			return
 		}
 		r.DB = db
+		r.statsFresh = false
 		r.opts = *st.Opts
 		if st.Op == "reopen" {
 			r.Stats.Reopens++
@@ -597,6 +641,7 @@ func (r *Runner) doStep(st *gen.Step) {
 		return
 	case "commit":
 		ts := r.Tx.Stats()
+		r.statsFresh = true
 		err := r.Tx.Commit()
 		r.Tx = nil
 		if err != nil {
@@ -613,6 +658,9 @@ func (r *Runner) doStep(st *gen.Step) {
 		}
 		return
 	case "rollback":
+		if r.Tx.Writable() {
+			r.statsFresh = true
+		}
 		err := r.Tx.Rollback()
 		r.Tx = nil
 		if err != nil {
@@ -918,5 +966,81 @@ func (r *Runner) probeClosed() {
 		_, err = b.CreateBucket([]byte("y"))
 		chk("Bucket.CreateBucket", err)
 		chk("Bucket.DeleteBucket", b.DeleteBucket([]byte("y")))
+	}
+}
+
+// commitWithFault commits with one injected I/O failure ("fail:<k>[:<partial>]").
+// If the k-th I/O event of the commit exists it fails once; the commit must then
+// report an error and be entirely absent - unless the failing event is the final
+// sync after the meta page was written, where it may be entirely present.
+func (r *Runner) commitWithFault(st *gen.Step) {
+	var k, partial int
+	fmt.Sscanf(strings.TrimPrefix(st.How, "fail:"), "%d:%d", &k, &partial)
+	txid := r.Tx.ID()
+	if r.Tracer == nil {
+		st2 := *st
+		st2.How = ""
+		r.doStep(&st2)
+		return
+	}
+	r.Tracer.ArmFault(k, partial)
+	r.statsFresh = true
+	err := r.Tx.Commit()
+	r.Tx = nil
+	counted, firedOp, _, metaWritten := r.Tracer.DisarmFault()
+	fo := FaultOutcome{K: k, Events: counted, FiredOp: firedOp, MetaWritten: metaWritten}
+	if firedOp == "" {
+		// the commit issued fewer than k events: an ordinary commit
+		if err != nil {
+			r.fail("commit", "Commit: %v", err)
+			return
+		}
+		r.Sim.Apply(&gen.Step{Op: "commit"})
+		r.Stats.Commits++
+		r.FaultLog = append(r.FaultLog, fo)
+		r.quiescent("after commit")
+		if r.AfterCommit != nil {
+			r.AfterCommit(r)
+		}
+		return
+	}
+	if err == nil {
+		r.fail("fault:no-error", "Commit returned nil although its I/O event %d (%s) failed", k, firedOp)
+		return
+	}
+	fo.Err = err.Error()
+	if firedOp == "mmap" {
+		// the DB object is unmapped by design; content is judged after reopen by the driver
+		r.Sim.Apply(&gen.Step{Op: "rollback"})
+		r.FaultLog = append(r.FaultLog, fo)
+		if r.OnFailed != nil {
+			r.OnFailed(r, false)
+		}
+		return
+	}
+	// which outcome is in effect in this process?
+	present := false
+	verr := r.DB.View(func(tx *bolt.Tx) error { present = tx.ID() >= txid; return nil })
+	if verr != nil {
+		r.fail("fault:unusable", "View after a failed commit: %v", verr)
+		return
+	}
+	fo.Present = present
+	r.FaultLog = append(r.FaultLog, fo)
+	if present {
+		if !(firedOp == "fdatasync" && metaWritten) {
+			r.fail("fault:visible", "commit failed at event %d (%s, meta page written: %v) but the transaction is in effect", k, firedOp, metaWritten)
+			return
+		}
+		r.Sim.Apply(&gen.Step{Op: "commit"})
+		r.Stats.Transitions["failed-final-sync-present"]++
+	} else {
+		r.Sim.Apply(&gen.Step{Op: "rollback"})
+		r.Stats.Transitions["failed-commit-absent"]++
+	}
+	r.Stats.Transitions["failed-commit:"+firedOp]++
+	r.quiescent("after failed commit")
+	if r.OnFailed != nil {
+		r.OnFailed(r, present)
 	}
 }
